@@ -355,6 +355,8 @@ class Check:
     def write_evidence(self, status_violations):
         # extension checks (ids X..: specification coverage beyond the listed properties) keep their evidence apart
         evid = EVID if not self.pid.startswith('X') else os.path.join(ROOT, 'evidence_ext')
+        # (runs against a deliberately changed copy of the library - bin/try_seed.sh - keep their evidence elsewhere)
+        evid = os.environ.get('VERIF_EVID_DIR') or evid
         os.makedirs(evid, exist_ok=True)
         cov = {
             'states': int(self.states),
